@@ -69,6 +69,25 @@ def replay (j : Json) : R Verdict := do
       if (fieldD r "ret").compress == "\"panic\"" then pf := pf ++ [s!"C15: run {k} with the Signal criterion panicked"]
       k := k + 1
   | none => if !(fieldD j "signalTwin").isNull then dis := some s!"signal experiment gave no output: {(fieldD j "signalTwin").compress}"
+  -- C04: two termination requests (interrupt and time limit, either order) reach the command loop while the only
+  -- evaluation in flight (700 ms, deaf to the abort request) is still running; the model of the loop is asked
+  let sd := fieldD j "signalDrain"
+  if !sd.isNull then
+    tags := (if (fieldD sd "sigintFirst").getBool?.toOption == some true then "run:drain-sigint-then-limit" else "run:drain-limit-then-sigint") :: tags
+    let evs : List LEv := ((fieldD sd "events").getArr?.toOption.getD #[]).toList.filterMap (fun e =>
+      match e.getStr?.toOption with | some "terminate" => some .terminate | some "closed" => some .closed | some "ctlDone" => some .ctlDone | _ => none)
+    let acts := (lrun {} evs).2
+    let r := fieldD sd "ret"
+    -- the model: exactly one abort request, then the controller's own result (which, with at least one accepted evaluation and no rejection, is Ok; on a
+    -- very slow machine a second evaluation may have been started before the first request arrived)
+    let modelOk := acts == [.abortReq, .retCtl]
+    let implOk := match (fieldD r "ok").getArr?.toOption with | some a => a.size == 3 && (a[0]!.getNat?.toOption.getD 0) ≥ 1 && a[1]!.compress == "0" | none => false
+    if !modelOk then dis := some s!"launch-layer model on {(fieldD sd "events").compress}: unexpected actions"
+    else if !implOk then
+      dis := some s!"command loop: model answers [abortReq, retCtl] to terminate, terminate, ctlDone; the run returned {r.compress}"
+      let order := if (fieldD sd "sigintFirst").getBool?.toOption == some true then "an interrupt after 100 ms and the time limit after 400 ms" else "the time limit after 100 ms and an interrupt after 400 ms"
+      pf := pf ++ [s!"C04: {order}, both while the only evaluation in flight (700 ms, ignores the abort request, result 0.25) was running: the run returned {r.compress} instead of that evaluation's result as best-seen"]
+      if r.compress == "\"panic\"" then pf := pf ++ [s!"C15: a second termination request while the run was draining panicked the launcher ({order})"]
   -- C04: the first result is one ulp ABOVE the target 1.0, the eleventh is the target: the run ends at the eleventh
   if (fieldD j "nearTarget").getBool?.toOption == some true then
     tags := "run:near-target" :: tags
